@@ -543,6 +543,8 @@ class C17(CheckBase):
             else:
                 bump('fault_run_read_raised')
         fs.eio_plan = {}
+        if apath not in [p for p, m in fs.opens]:
+            raise kernel.HarnessError('storage seam bypassed: read_ntv2_file did not open the file through geodepy.ntv2reader.open')
         present = None
         if grid is not None:
             self._check_meta(grid, spec, path, V, keep, layout)
